@@ -635,10 +635,22 @@ def run(ctx: Ctx) -> None:
     t0 = time.time()
     global OPEN_SLICE_FIX
     from translate import reach_tables
-    reach_tables.main()
-    OPEN_SLICE_FIX = reach_tables.open_slice_fix()
+    translator_error = ""
+    try:                                   # fail closed: a translator that cannot read the tree is a broken tie, not a tool failure
+        reach_tables.main()
+        OPEN_SLICE_FIX = reach_tables.open_slice_fix()
+    except Exception as e:
+        translator_error = f"translate/reach_tables.py cannot read this tree: {type(e).__name__}: {e}"
+        OPEN_SLICE_FIX = False
+    if reach_tables.MISSING:
+        ctx.coverage["reach_translator_missing"] = list(reach_tables.MISSING)
     ctx.coverage["reach_open_slice_rule_in_tree"] = OPEN_SLICE_FIX
     proved = ctx.prove("MypyVerif.Props.C12Reach", MODEL_FILES + ["MypyVerif/Gen/ReachTables.lean"])
+    if translator_error:
+        proved = False
+        ctx.broken_ties.append(translator_error)
+    elif not proved and reach_tables.MISSING:
+        ctx.broken_ties.append("translate/reach_tables.py: " + "; ".join(reach_tables.MISSING))
     ctx.trusted("translator translate/reach_tables.py (inverted_truth_mapping, reverse_op read from the module; and/or branches, "
                 "fixed_comparison and special names tabulated by running the real functions) → theorem tables_match_source",
                 "reachability models: mypy/reachability.py infer_condition_value, consider_sys_version_info, consider_sys_platform, "
@@ -760,7 +772,10 @@ def run(ctx: Ctx) -> None:
 def replay(ctx: Ctx, det: dict) -> int:
     global OPEN_SLICE_FIX
     from translate import reach_tables
-    OPEN_SLICE_FIX = reach_tables.open_slice_fix()
+    try:
+        OPEN_SLICE_FIX = reach_tables.open_slice_fix()
+    except Exception:
+        OPEN_SLICE_FIX = False
     real = Real()
     src = det["src"]
     ma, mi = det["target"]
